@@ -3018,6 +3018,13 @@ func (vc *ValCount) smaller(other ValCount) ValCount {
 	if vc.Count == 0 || (other.Val < vc.Val && other.Count > 0) {
 		return other
 	}
+	// Several shards hold the same minimum: the count is their total.
+	if other.Count > 0 && other.Val == vc.Val {
+		return ValCount{
+			Val:   vc.Val,
+			Count: vc.Count + other.Count,
+		}
+	}
 	return ValCount{
 		Val:   vc.Val,
 		Count: vc.Count,
@@ -3028,6 +3035,13 @@ func (vc *ValCount) smaller(other ValCount) ValCount {
 func (vc *ValCount) larger(other ValCount) ValCount {
 	if vc.Count == 0 || (other.Val > vc.Val && other.Count > 0) {
 		return other
+	}
+	// Several shards hold the same maximum: the count is their total.
+	if other.Count > 0 && other.Val == vc.Val {
+		return ValCount{
+			Val:   vc.Val,
+			Count: vc.Count + other.Count,
+		}
 	}
 	return ValCount{
 		Val:   vc.Val,
